@@ -81,14 +81,77 @@ Proof.
   exists ms. split; [exact F|]. exact E.
 Qed.
 
-(* D23: the statement "no member object is replaced" fails for an integer tensor alone on stack dim 0 *)
-Theorem write_through_refuted :
-  exists self idx vsh plan slot src,
-    wf_tree self [2; 3] /\ run_setitem 3 self idx vsh = Ok plan /\ In (WReplace slot src) plan.
+(* the former D23 region (fix C08-D23): lazy[T] = V with an integer tensor T of rank 1 as the whole index on stack dim 0
+   now performs ONE in-place update per addressed member, member vals[i] receiving V[i]; nothing is replaced *)
+Definition tensor_plan_of (ms : list arr) (v : arr) : list wr :=
+  map (fun mk => WSet (fst mk) [] (Index (select_idx 0 (Z.of_nat (snd mk))) v)) (combine ms (seq 0 (List.length ms))).
+
+Lemma assign_leaves LS f' parts v vs : forall (vals : list Z) (i : nat) ws,
+  Forall (fun p => is_stack p = false) parts ->
+  (fix go (l : list nest) (i : nat) : res (list wr) :=
+     match l with
+     | [] => Ok []
+     | NLeaf j :: r =>
+         rbind (of_opt (nth_error vs i)) (fun vi =>
+         rbind (if is_empty_idx []
+                then (if fixed_D23 then rbind (member parts j) (fun m => m_update (S f') m vi)
+                      else match norm_i j (lenZ parts) with Some j' => Ok [WReplace j' vi] | None => Raised end)
+                else rbind (member parts j) (fun m => m_setitem LS m [] vi)) (fun w =>
+         rbind (go r (S i)) (fun ws => Ok (w ++ ws))))
+     | (NList _ as t') :: r =>
+         rbind (of_opt (nth_error vs i)) (fun vi =>
+         rbind (assign LS (S f') parts 0 [] vi t') (fun w => rbind (go r (S i)) (fun ws => Ok (w ++ ws))))
+     end) (map NLeaf vals) i = Ok ws ->
+  exists ms, Forall2 (fun j m => member parts j = Ok m) vals ms /\
+             ws = map (fun mk => WSet (fst mk) [] (nth (snd mk) vs v)) (combine ms (seq i (List.length ms))).
 Proof.
-  exists (Stack 0 [3] [Leaf 0 [3]; Leaf 1 [3]]), [ITen [2] [1; 0]], [2; 3].
-  eexists. eexists. eexists. split; [|split].
-  - apply (wf_stack 0 [3] [Leaf 0 [3]; Leaf 1 [3]] [3]); [discriminate| |cbn; lia]. wf_lit.
-  - vm_compute. reflexivity.
-  - left. reflexivity.
+  induction vals as [|j vals IH]; intros i ws Hplain H.
+  - cbn in H. inversion H. exists []. split; [constructor|reflexivity].
+  - cbn [map] in H.
+    apply rbind_ok in H. destruct H as [vi [Hvi H]]. apply rbind_ok in H. destruct H as [w [Hw H]].
+    apply rbind_ok in H. destruct H as [ws' [Hws H]]. inversion H; subst ws. clear H.
+    cbn [is_empty_idx] in Hw. unfold fixed_D23 in Hw. apply rbind_ok in Hw. destruct Hw as [m [Em Hw]].
+    destruct (IH (S i) ws' Hplain Hws) as [ms [F E]].
+    exists (m :: ms). split; [constructor; assumption|].
+    assert (Hm : is_stack m = false) by (apply (proj1 (Forall_forall _ _) Hplain); eapply member_In; exact Em).
+    destruct m; cbn in Hm; try discriminate; cbn [m_update] in Hw; inversion Hw; subst w;
+      cbn [List.length seq combine map fst snd app]; rewrite E;
+      (destruct (nth_error vs i) as [x|] eqn:En; cbn in Hvi; [|discriminate]); inversion Hvi; subst x;
+      rewrite (nth_error_nth _ _ _ En); reflexivity.
+Qed.
+
+Theorem setitem_tensor_alone fuel bs0 parts bs k vals v vsh plan :
+  parts <> [] -> Forall (fun p => shape_of p = Some bs /\ is_stack p = false) parts ->
+  shape_of v = Some vsh -> res_shape [ITen [k] vals] (insert_at 0 (lenZ parts) bs) = Some vsh ->
+  lz_setitem (S (S fuel)) (Stack 0 bs0 parts) [ITen [k] vals] v = Ok plan ->
+  exists ms, Forall2 (fun j m => member parts j = Ok m) vals ms /\ plan = tensor_plan_of ms v.
+Proof.
+  intros Hne Hparts Hv Hlegal H.
+  assert (Hsh : Forall (fun p => shape_of p = Some bs) parts) by (eapply Forall_impl; [|exact Hparts]; intros p [A _]; exact A).
+  assert (Hpl : Forall (fun p => is_stack p = false) parts) by (eapply Forall_impl; [|exact Hparts]; intros p [_ A]; exact A).
+  remember (S fuel) as f1 eqn:Ef1.
+  cbn [lz_setitem] in H. rewrite (shape_of_stack 0 bs0 parts bs Hne Hsh ltac:(lia)) in H.
+  rewrite convert_ellipsis_noell in H by (repeat constructor). cbn [rbind] in H. rewrite Hlegal in H.
+  unfold prep_value in H. rewrite Hv, list_eqb_refl, Hv in H.
+  (* legality gives the size facts about the tensor *)
+  unfold insert_at in Hlegal. cbn [firstn skipn app res_shape] in Hlegal.
+  destruct ((lenZ vals =? prodZ [k]) && vals_ok vals (lenZ parts) && forallb (fun x : Z => 0 <=? x) [k]) eqn:Ec; [|discriminate].
+  cbn [option_map app] in Hlegal. inversion Hlegal; subst vsh. clear Hlegal.
+  apply andb_prop in Ec. destruct Ec as [Ec Ek]. apply andb_prop in Ec. destruct Ec as [El _].
+  unfold setitem_body, split_index in H.
+  rewrite convert_ellipsis_noell in H by (repeat constructor). cbn [rbind filter is_adv List.length Nat.ltb Nat.leb] in H.
+  cbn [split_loop] in H. unfold split_step in H. cbn [as_number st_cursor Nat.eqb rbind st_has_bool st_out rmap st_sel] in H.
+  rewrite El in H. cbn [rbind sp_kind sp_isint to_nest sp_num_single sp_num_none sp_num_squash st_num_single st_num_none st_num_squash st_enc] in H.
+  apply rbind_ok in H. destruct H as [ud [Hud H]]. cbn in Hud. inversion Hud; subst ud. clear Hud.
+  cbn [assign] in H. apply rbind_ok in H. destruct H as [vs [Hvs H]].
+  unfold v_unbind in Hvs. rewrite Hv in Hvs. cbn [nth_error] in Hvs. inversion Hvs; subst vs. clear Hvs.
+  subst f1.
+  destruct (assign_leaves _ fuel parts v _ vals 0%nat plan Hpl H) as [ms [F E]].
+  exists ms. split; [exact F|]. rewrite E. unfold tensor_plan_of. apply map_ext_in.
+  intros [m i] Hin. cbn [fst snd]. f_equal.
+  apply in_combine_r in Hin. apply in_seq in Hin.
+  assert (Hlen : List.length ms = Z.to_nat k).
+  { rewrite <- (Forall2_length _ _ _ F). cbn [prodZ fold_right] in El. unfold lenZ in El. lia. }
+  apply nth_error_nth. rewrite nth_error_map, nth_error_seq.
+  replace (i <? Z.to_nat k)%nat with true by (symmetry; apply Nat.ltb_lt; lia). reflexivity.
 Qed.
